@@ -7,6 +7,7 @@ import (
 	"verif/vk"
 
 	"github.com/lianxiangcloud/linkchain/consensus"
+	dbm "github.com/lianxiangcloud/linkchain/libs/db"
 	"github.com/lianxiangcloud/linkchain/types"
 )
 
@@ -23,6 +24,7 @@ const (
 	keyUSChanged = "updateStatus:LastHeightValidatorsChanged-wrong"
 	keyUSMutate  = "updateStatus:mutates-or-aliases-input-status"
 	keyUSErr     = "updateStatus:error"
+	keyUSReload  = "updateStatus:differs-on-saved-and-reloaded-status"
 )
 
 type entry struct {
@@ -202,6 +204,24 @@ func (in *usInst) step(l []entry, full bool, perms *int) (string, string) {
 		return keyUSRef, "LastBlockHeight not advanced by one"
 	}
 	if full {
+		// a node that restarted before this block works from the status it saved: same result
+		db := dbm.NewMemDB()
+		consensus.SaveStatus(db, in.st)
+		if loaded, err := consensus.LoadStatus(db); err != nil {
+			return keyUSReload, "LoadStatus after SaveStatus: " + err.Error()
+		} else {
+			mem := in.st
+			in.st = loaded
+			o4, err := in.call(l, nil)
+			in.st = mem
+			*perms++
+			if err != nil {
+				return keyUSErr, err.Error()
+			}
+			if g := snapSet(o4.Validators); g != gotVal || snapSet(o4.LastValidators) != inVal || o4.LastHeightValidatorsChanged != out.LastHeightValidatorsChanged {
+				return keyUSReload, fmt.Sprintf("status with validators %s: %s gives next validators %s, but %s when the status went through SaveStatus/LoadStatus first", inVal, listName(l), gotVal, g)
+			}
+		}
 		// the result must not share mutable state with its input: rotate throw-away results, look at the input
 		o3, _ := in.call(l, nil)
 		o3.Validators.IncrementAccum(1)
